@@ -2,3 +2,7 @@
 // vstd leaves its `spec_from` uninterpreted for user types) ----
 pub broadcast axiom fn axiom_spec_from<S: From<T>, T>(v: T, r: S)
     ensures #[trigger] vstd::std_specs::control_flow::spec_from::<S, T>(v, r) ==> call_ensures(<S as From<T>>::from, (v,), r);
+
+// std: `impl<T> From<T> for T` is the identity, hence so is `Into<T> for T`
+pub broadcast axiom fn axiom_into_self<T>(x: T, r: T)
+    ensures #[trigger] call_ensures(<T as Into<T>>::into, (x,), r) ==> r == x;
